@@ -159,9 +159,15 @@ def run_case(case, R):
         other = SrpExchange(code, salt, b + 2).finish(ex.A)
         if c.verify_servers_proof_bytes(other.M2):
             R.fail("C02.corrupt-proof-accepted", f"{ctx}: M2 of another exchange accepted")
-        for bad in (b"", bytes(64), ex.M2[:63], ex.M1):
+        # truncations: every proper prefix and every proper suffix (a suffix that only drops zero bytes is the same number and is
+        # tolerated, as is padding with leading zeros - the tree compares proofs as integers)
+        cands = [b"", bytes(64), ex.M1] + [ex.M2[:n] for n in range(1, 64)] + [ex.M2[n:] for n in range(1, 64)] + [ex.M2 + b"\x00", ex.M2 * 2]
+        for bad in cands:
+            n += 1
             if bad != ex.M2 and c.verify_servers_proof_bytes(bad) and int.from_bytes(bad, "big") != int.from_bytes(ex.M2, "big"):
-                R.fail("C02.corrupt-proof-accepted", f"{ctx}: bogus proof {bad.hex()[:40]} accepted")
+                R.fail("C02.corrupt-proof-accepted", f"{ctx}: bogus proof of {len(bad)} bytes ({bad.hex()[:40]}..) accepted",
+                       kind="suffix" if bad and ex.M2.endswith(bad) else "prefix" if bad and ex.M2.startswith(bad) else "other")
+                break
         R.sub = n
 
 
@@ -221,7 +227,7 @@ SPEC = Property(
     P, "exploration",
     rule=("setup code (all ddd-dd-ddd shapes) x 16-byte salt (random, 1..16 leading zero bytes) x client/server secrets (128-bit and "
           "small), with a deterministic directed search that steps the secrets until PAD(A), PAD(B), PAD(S), K, M1 or M2 starts with "
-          "0x00; modes: client API comparison, all 512 single-bit flips of M2 (+ M2 of another exchange), wrong setup code, and the "
+          "0x00; modes: client API comparison, all 512 single-bit flips of M2, every proper prefix and suffix of M2, M2 of another exchange, wrong setup code, and the "
           "M3 message of perform_pair_setup_part2. Non-trivial: the exchange hits at least one leading-zero target, or is a "
           "corrupted-proof / wrong-code case."),
     layers=[
